@@ -84,7 +84,15 @@ func judgeC01(sc *Scope, rings [][]ref.P, acc *Acc) []Problem {
 						m := model(sc.G, units, z)
 						sig = fmt.Sprintf("crossing:routed-centre-visits=%d", m.MaxV)
 						if m.MaxV >= 3 {
-							sig = "F5:crossing,routed-centre-visits>=3"
+							// the recorded finding F5 is narrower than "any crossing of a heavily collapsing polygon":
+							// one of the two crossing edges must be an edge invented by spike removal (not a routed
+							// edge or straight run of routed edges); two genuinely routed edges that cross are a
+							// different defect and are reported
+							if !ref.IsRun(m.Chains, ea[0], ea[1]) || !ref.IsRun(m.Chains, eb[0], eb[1]) {
+								sig = "F5:crossing-by-invented-edge,routed-centre-visits>=3"
+							} else {
+								sig = "crossing-of-routed-edges:routed-centre-visits>=3"
+							}
 						}
 					}
 					probs = append(probs, Problem{Sig: sig, What: fmt.Sprintf("id %d: edges %v and %v cross (pixel indices)", z, ea, eb), IDs: ids, Cfg: cfg, Got: res})
